@@ -166,7 +166,11 @@ class NameSanitizer:
         if cls_name[0].isdigit():  # Check after ensuring cls_name is not empty
             cls_name = "_" + cls_name
         # Avoid Python keywords and reserved names (case-insensitive)
-        if keyword.iskeyword(cls_name.lower()) or cls_name.lower() in NameSanitizer.RESERVED_NAMES:
+        if (
+            keyword.iskeyword(cls_name)  # "None", "True", "False" are keywords only when capitalised
+            or keyword.iskeyword(cls_name.lower())
+            or cls_name.lower() in NameSanitizer.RESERVED_NAMES
+        ):
             cls_name += "_"
         return cls_name
 
